@@ -375,6 +375,7 @@ fn c06_cfg(ctx: &Ctx) -> CaseCfg {
     hot_kinds: vec![HotKind::Harness, HotKind::Harness, HotKind::Subject, HotKind::Behavior(1), HotKind::Replay, HotKind::Async],
     max_rec: 2,
     unsub: true,
+    drop_observable: true,
     ..CaseCfg::default()
   }
 }
@@ -510,6 +511,7 @@ fn c17_cfg(ctx: &Ctx) -> CaseCfg {
     hot_kinds: vec![HotKind::Harness, HotKind::Subject, HotKind::Behavior(0), HotKind::Replay, HotKind::Async],
     max_rec: 2,
     unsub: true,
+    drop_observable: true,
     ..CaseCfg::default()
   }
 }
